@@ -17,6 +17,9 @@ enum Want {
     Refuse,
     /// the property does not classify this string: only "no 5xx, no hang"
     Unclassified,
+    /// a positive number too large for the limit's type: refused, or served capped at the maximum -
+    /// never served with some other page size
+    RefuseOrCap,
 }
 
 fn reference(limit: Option<&str>) -> Want {
@@ -30,11 +33,11 @@ fn reference(limit: Option<&str>) -> Want {
                     return Want::Refuse; // zero
                 }
                 if trimmed.len() > 10 {
-                    return Want::Unclassified;
+                    return Want::RefuseOrCap;
                 }
                 let n: u64 = trimmed.parse().unwrap();
                 if n > u32::MAX as u64 {
-                    Want::Unclassified
+                    Want::RefuseOrCap
                 } else {
                     Want::Limit(n.min(MAX))
                 }
@@ -73,6 +76,7 @@ fn check_limit_at(ctx: &Ctx, ka: &mut KeepAlive, endpoint: &str, limit: Option<&
         Want::Limit(n) => resp.status == 200 && resp.json().map(|j| j["limit"] == json!(n)).unwrap_or(false),
         Want::Refuse => (400..500).contains(&resp.status),
         Want::Unclassified => resp.status < 500,
+        Want::RefuseOrCap => (400..500).contains(&resp.status) || (resp.status == 200 && resp.json().map(|j| j["limit"] == json!(MAX)).unwrap_or(false)),
     };
     if !ok {
         let class = match limit {
@@ -81,7 +85,7 @@ fn check_limit_at(ctx: &Ctx, ka: &mut KeepAlive, endpoint: &str, limit: Option<&
             _ => "other",
         };
         ctx.report(Violation {
-            sig: json!({"kind":"page_limit","endpoint": endpoint, "class": class, "want": match want { Want::Limit(_) => "limit", Want::Refuse => "refuse", Want::Unclassified => "no_5xx" }, "status": resp.status}),
+            sig: json!({"kind":"page_limit","endpoint": endpoint, "class": class, "want": match want { Want::Limit(_) => "limit", Want::Refuse => "refuse", Want::Unclassified => "no_5xx", Want::RefuseOrCap => "refuse_or_cap" }, "status": resp.status}),
             case,
             expected: json!(format!("{want:?}")),
             observed: resp.to_json(),
@@ -106,6 +110,9 @@ pub fn run(ctx: &Ctx, samples: &Samples) -> Value {
     let mut limits: Vec<String> = vec![];
     let upto: u64 = ctx.tier.pick(130, 10_002);
     for n in 0..=upto {
+        limits.push(n.to_string());
+    }
+    for n in [(1u64 << 32) + 5, (1 << 32) + 10_000, (1 << 32) + 10_001, (1 << 33) + 7, (1 << 48) + 3, (1 << 63) + 1, u64::MAX - 1] {
         limits.push(n.to_string());
     }
     for n in [999u64, 1000, 1001, 9_998, 9_999, 10_000, 10_001, 10_002, 65_535, 65_536, 100_000, 1 << 31, (1 << 32) - 1, 1 << 32, (1 << 32) + 1, u64::MAX] {
